@@ -70,7 +70,11 @@ def merge(outs):
         M["viol_classes"].update(o.get("viol_classes", {}))
         M["inconclusive"].update(o.get("inconclusive", {}))
         M["inconclusive_samples"].extend(o.get("inconclusive_samples", [])[:2])
-        M["reach"].update(o.get("reach", {}))
+        for rk, rv_ in o.get("reach", {}).items():
+            if rk.endswith("@max"):
+                M["reach"][rk] = max(M["reach"].get(rk, 0), rv_)
+            else:
+                M["reach"][rk] += rv_
         M["warnings_seen"].update(o.get("warnings_seen", {}))
         M["wall_worker_s"] += o.get("wall_s", 0.0)
     return M
